@@ -539,6 +539,7 @@ func (w *world) dump() string {
 			}
 		}
 	}
+	nb := n // first block height not found
 	sb.WriteString("] tb ")
 	if height, hash, err := w.tipB(); err != nil {
 		sb.WriteString("err")
@@ -579,8 +580,53 @@ func (w *world) dump() string {
 		}
 	}
 	w.checkAllGone = false
+	// heights far beyond the tip must not be found either: offsets computed in
+	// 32 bits (height*80, height*32) wrap back into the file for heights around
+	// k*2^32/80 and k*2^32/32 (seed C07h-1); a few of each, next to the tip and at
+	// the ends of the uint32 range
+	if xb == "ok" {
+		for _, far := range farHeights(nb) {
+			if _, err := w.bs.FetchHeaderByHeight(far); err == nil {
+				xb = fmt.Sprintf("far@%d", far)
+				break
+			}
+		}
+	}
+	if xb == "ok" {
+		for _, far := range farHeights(n) {
+			if _, err := w.fs.FetchHeaderByHeight(far); err == nil {
+				xb = fmt.Sprintf("farf@%d", far)
+				break
+			}
+		}
+	}
 	fmt.Fprintf(&sb, " xb %s gone %s", xb, gone)
 	return sb.String()
+}
+
+// farHeights lists heights above every stored entry (n = first height not found
+// by the dump) at which a wrapped 32-bit offset would land inside the files.
+func farHeights(n uint32) []uint32 {
+	out := []uint32{n + 1, n + 2, n + 1000, 1<<31 - 1, 1 << 31, 1<<32 - 1, 1<<32 - 2}
+	for _, width := range []uint64{80, 32} {
+		for k := uint64(1); k <= 3; k++ {
+			// smallest height whose offset height*width >= k*2^32
+			base := (k<<32 + width - 1) / width
+			for j := uint64(0); j < 4; j++ {
+				if h := base + j; h < 1<<32 && uint32(h) > n {
+					out = append(out, uint32(h))
+				}
+			}
+		}
+	}
+	for _, sh := range []uint{27, 28, 29, 30} {
+		for j := uint32(0); j < 3; j++ {
+			if h := uint32(1)<<sh + j; h > n {
+				out = append(out, h)
+			}
+		}
+	}
+	return out
 }
 
 type gen struct {
